@@ -28,7 +28,8 @@ TABLE = [
     ("agm", sf.A(lambda r: sf.posq(r, 9), lambda r: sf.posq(r, 9)), sf.F1("agm")),
     ("jtheta3", sf.A(lambda r: sf.rq(r, -3, 3), lambda r: Fr(r.randint(1, 50), 64)), lambda mp, a: mp.jtheta(3, sf.q2m(mp, a[0]), sf.q2m(mp, a[1]))),
     ("jtheta1-derivative", sf.A(lambda r: sf.rq(r, -3, 3), lambda r: Fr(r.randint(1, 50), 64)), lambda mp, a: mp.jtheta(1, sf.q2m(mp, a[0]), sf.q2m(mp, a[1]), 1)),
-    ("ellipfun-sn", sf.A(lambda r: sf.rq(r, -3, 3), m01), lambda mp, a: mp.ellipfun("sn", sf.q2m(mp, a[0]), sf.q2m(mp, a[1]))),
+    ("ellipfun-sn", sf.A(lambda r: sf.rq(r, -3, 3) or Fr(1, 8), m01),            # u = 0 is a zero of sn: no relative accuracy there
+     lambda mp, a: mp.ellipfun("sn", sf.q2m(mp, a[0]), sf.q2m(mp, a[1]))),
     ("kleinj", sf.A(lambda r: (sf.rq(r, -1, 1), sf.posq(r, 2) + Fr(1, 2))), sf.F1("kleinj")),
     ("eta", sf.A(lambda r: (sf.rq(r, -1, 1), sf.posq(r, 2) + Fr(1, 4))), sf.F1("eta")),
     ("qfrom", sf.A(m01), lambda mp, a: mp.qfrom(m=sf.q2m(mp, a[0]))),
